@@ -313,6 +313,9 @@ func c07Run(c *mon.Ctx, r *mon.Rand) {
 								ch.Timer("t").Record(time.Millisecond)
 								// also when that child already exists in the registry
 								h.sc.SubScope("kid").Counter("c").Inc(1)
+								// and when the derivation adds nothing (no tags at all)
+								h.sc.Tagged(nil).Counter("inert_same").Inc(1)
+								h.sc.Tagged(map[string]string{}).Gauge("inert_same_g").Update(1)
 							}
 							kept := handles[:0]
 							for _, x := range handles {
